@@ -39,6 +39,7 @@ class Module(object):
         self.classes = {}           # qualname -> ClassDef
         self.imports = {}           # local name -> ("mod", dotted) | ("sym", dotted, name)
         self.top_assign = {}        # name -> [value nodes] (module level, incl. if/try bodies)
+        self.star_imports = []      # dotted modules imported with *
         self.is_pkg = os.path.basename(path) == "__init__.py"
         self._index()
 
@@ -106,6 +107,9 @@ class Module(object):
             elif isinstance(node, ast.ImportFrom):
                 m = self.resolve_from(node)
                 for a in node.names:
+                    if a.name == "*":
+                        self.star_imports.append(m)
+                        continue
                     self.imports.setdefault(a.asname or a.name,
                                             ("sym", m, a.name))
 
@@ -233,6 +237,11 @@ class Repo(object):
                     return r
                 return ("extsym", m2, sym)
             return ("extsym", m2, sym)
+        for sm in mod.star_imports:
+            if sm in self.modules and not name.startswith("_"):
+                r = self.resolve_symbol(self.modules[sm], name, depth + 1)
+                if r is not None:
+                    return r
         return None
 
     def class_bases(self, mod, cnode):
